@@ -80,6 +80,8 @@ TABLES = [
 
 # silent misses that are accepted, each with its reason: regex on "translator|file|unit|mutation description"
 WAIVERS = [
+    (r"gen_prox\.py\|.*box-constr-problem\.hpp\|fn eval_prox_grad_step_box_l1(_scal)?@\d+\|dup .*duplicate `eval_prox_grad_step_box_l1_impl\(",
+     "equivalent mutant: the call recomputes its outputs (x̂, p) from unchanged inputs, calling it twice changes nothing"),
 ]
 
 # files a translator opens but which are not sources to mutate
@@ -370,6 +372,18 @@ def written_var(text):
     return None
 
 
+SBIND = re.compile(r"^\s*(?:const\s+)?auto\s*&?\s*\[([^\]]*)\]\s*=")
+
+
+def written_set(text):
+    """the names a simple statement declares / assigns (structured bindings included); None when it is not such a statement"""
+    m = SBIND.match(text)
+    if m:
+        return set(x.strip() for x in m.group(1).split(","))
+    w = written_var(text)
+    return {w[0]} if w else None
+
+
 def idents(text):
     return [m.group(1) for m in VAR.finditer(text) if m.group(1).split(".")[0].split("->")[0] not in KEYWORDS
             and not m.group(1)[0].isdigit() and not m.group(1).startswith("std")]
@@ -516,9 +530,11 @@ def mutants_code(S, M, a, b, partner, single_statement=False, site=False):
             ix, iy = set(idents(tx)), set(idents(ty))
             # dependent: one writes (declares / assigns) what the other mentions, or one is a call statement (unknown effects)
             # sharing an identifier with the other; two statements that only READ common names commute (equivalent mutant)
-            callx = x["kind"] == "ctrl" or (wx is None and "(" in tx)
-            cally = y["kind"] == "ctrl" or (wy is None and "(" in ty)
-            dep = bool((wx and wx[0] in iy) or (wy and wy[0] in ix) or ((callx or cally) and ix & iy))
+            Wx = written_set(tx) if x["kind"] == "simple" else None
+            Wy = written_set(ty) if y["kind"] == "simple" else None
+            callx = x["kind"] == "ctrl" or (Wx is None and "(" in tx)
+            cally = y["kind"] == "ctrl" or (Wy is None and "(" in ty)
+            dep = bool((Wx and Wx & iy) or (Wy and Wy & ix) or ((callx or cally) and ix & iy))
             if not dep:
                 continue
             score = 0
